@@ -25,6 +25,7 @@ func init() {
 			"T9 the page loops of the SEV measurement run only after the address-range/alignment check returned nil, and that check returns nil only behind every one of its tests (no bypassing return). " +
 			"T10 sentinel index: the result of a bytes/strings/slices Index-family search (−1 = not found) used as an index, slice bound or allocation size needs a dominating sign test of that very value. T11 x[len(x)−k] / x[:len(x)−k] needs a dominating condition on that very slice value establishing len(x) ≥ k (one named suppression with reason in C07). T12 +,−,*,<< on a decoded operand carried out in fewer bits than the integer type its result is then converted to needs a dominating upper bound of the operand. T13 (ESP) a []byte sliced at bounds that move with a loop counter, in a loop that runs up to a value not computed from the buffer's length, is reached only on paths where executed checks relate that value to the buffer length through some chain of comparisons (decides that a relating chain exists, not that it is arithmetically sufficient). " +
 			"T15 loop progress: every loop of W is an iterator loop, a counted loop (an integer loop variable moved strictly on every back edge and compared in an exit test), a consumption loop (decreased on every back edge by a decoded amount that a dominating check makes positive: the GUID-table walk), or the one sweep loop (unacceptedMemRanges: a back edge that keeps the cursor lies behind two non-emptiness tests and two failed ordering tests, which make the consumed intersection non-empty); any other loop shape is counted as unclassified in evidence and gets no verdict. " +
+			"T27 a loop `i <= b` over an unsigned counter with a constant step needs b known below something (a bound at the top of the range makes the test always true: the counter wraps and the loop never ends). " +
 			"T26 a constant slice bound or index on a slice that is a call result or a field value (x.GetSignature()[:8]) needs len ≥ that constant established for that very slice. " +
 			"T25 an integer division or remainder by a non-constant happens only behind a dominating condition on that very value that excludes zero. " +
 			"T24 a conversion of a slice to an array ([N]T(x)) happens only where len(x) ≥ N is established for that slice. " +
@@ -103,6 +104,7 @@ func runC08(c *Ctx) {
 	c.S.OK("T24", "measurement closure:slice-to-array conversions", "", fmt.Sprintf("%d conversions of a slice to an array examined", c.sliceToArrayRule("T24", fns)), false)
 	c.S.OK("T25", "measurement closure:divisions by a non-constant", "", fmt.Sprintf("%d integer divisions or remainders by a non-constant examined", c.divisorRule("T25", fns)), false)
 	c.S.OK("T26", "measurement closure:constant bounds on computed slices", "", fmt.Sprintf("%d constant slice bounds / indexes on call results and field values examined", c.constBoundRule("T26", fns)), false)
+	c.S.OK("T27", "measurement closure:inclusive loop bounds", "", fmt.Sprintf("%d loops with an inclusive bound on an unsigned counter examined", c.inclusiveBoundRule("T27", fns)), false)
 	c.widenAfterArithRule("T12", fns)
 	// sweep loops (a cursor that some iterations keep in place): confirmed by reading — today exactly one, the
 	// private-section sweep of ovmf.unacceptedMemRanges. An iteration that keeps the cursor shrinks the current RAM
